@@ -427,12 +427,69 @@ func runC20(c *Ctx) *Replay {
 			}
 		}
 	}
+	// part 4: hostile length prefixes on the checked string readers (never out of bounds)
+	for _, pfx := range []uint32{uint32(len(sv.B)) + 1, 1 << 16, 1<<31 - 1, 1 << 31, 0xFFFFFFF0, 0xFFFFFFFB, 0xFFFFFFFC, 0xFFFFFFFD, 0xFFFFFFFE, 0xFFFFFFFF} {
+		for _, shared := range []bool{false, true} {
+			buf := append([]byte(nil), full...)
+			if len(buf) < 4 {
+				continue
+			}
+			buf[0], buf[1], buf[2], buf[3] = byte(pfx), byte(pfx>>8), byte(pfx>>16), byte(pfx>>24)
+			gb := c.N.guard.place(buf)
+			var err error
+			cr := safeCall(1<<20, 1<<20, func() {
+				if shared {
+					_, err = iohelp.ReadStringBytesSharedMemory(gb)
+				} else {
+					_, err = iohelp.ReadStringBytes(gb)
+				}
+			})
+			c.Count("evaluations", 1)
+			c.Count("strlen_hostile_prefix", 1)
+			c.State("c20p", fmt.Sprint(pfx), fmt.Sprint(shared))
+			var v *Violation
+			if cr.Panicked {
+				v = &Violation{Class: "panic", Signature: "panic|ReadStringBytes|hostile-prefix", Detail: fmt.Sprintf("ReadStringBytes(shared=%v) with length prefix %#x on a %d-byte buffer: %s", shared, pfx, len(buf), cr.PanicText())}
+			} else if err == nil {
+				v = &Violation{Class: "nil-error", Signature: "nil-error|ReadStringBytes|hostile-prefix", Detail: fmt.Sprintf("ReadStringBytes(shared=%v) accepted length prefix %#x on a %d-byte buffer", shared, pfx, len(buf))}
+			}
+			if v != nil {
+				sc := Scenario{Kind: "prims", Types: []string{"string"}, Values: []val.Value{sv}, Extra: map[string]string{"probe": "hostileprefix", "shared": fmt.Sprint(shared), "prefix": fmt.Sprint(pfx)}}
+				if rp := c.shrinkAndReport(&sc, v); rp != nil {
+					return rp
+				}
+			}
+		}
+	}
 	return nil
 }
 
 // execPrims runs one primitive stream scenario (and, for the probe form, the string
 // bounds probe).
 func execPrims(n *Node, sc *Scenario) *Violation {
+	if sc.Extra["probe"] == "hostileprefix" {
+		full := primEncode("string", sc.Values[0])
+		var pfx uint32
+		fmt.Sscan(sc.Extra["prefix"], &pfx)
+		buf := append([]byte(nil), full...)
+		buf[0], buf[1], buf[2], buf[3] = byte(pfx), byte(pfx>>8), byte(pfx>>16), byte(pfx>>24)
+		gb := n.guard.place(buf)
+		var err error
+		cr := safeCall(1<<20, 1<<20, func() {
+			if sc.Extra["shared"] == "true" {
+				_, err = iohelp.ReadStringBytesSharedMemory(gb)
+			} else {
+				_, err = iohelp.ReadStringBytes(gb)
+			}
+		})
+		if cr.Panicked {
+			return &Violation{Class: "panic", Signature: "panic|ReadStringBytes|hostile-prefix", Detail: cr.PanicText()}
+		}
+		if err == nil && int(pfx) != len(full)-4 {
+			return &Violation{Class: "nil-error", Signature: "nil-error|ReadStringBytes|hostile-prefix", Detail: "accepted"}
+		}
+		return nil
+	}
 	if sc.Extra["probe"] == "readstringbytes" {
 		full := primEncode("string", sc.Values[0])
 		k := sc.Cut
